@@ -363,7 +363,7 @@ def contact_model(name, opt, pairs, *, condim=3, margin=0.0, gap=0.0, friction="
             sep = ext[a] + ext[b] - 0.004
             bodies += ('    <body name="b%d" pos="%g 0.01 1.0"><joint name="f%d" type="free"/><geom name="g%d" %s %s/>'
                        '<site name="s%d" size="0.2"/></body>\n' % (k, x, k, k, GEOMS[a], gcommon, k))
-            bodies += ('    <body name="b%d" pos="%g 0 1.02"><joint name="f%d" type="free"/><geom name="g%d" %s %s/>'
+            bodies += ('    <body name="b%d" pos="%g 0 1.02" quat="0.99 0.05 -0.1 0.08"><joint name="f%d" type="free"/><geom name="g%d" %s %s/>'
                        '<site name="s%d" size="0.2"/></body>\n' % (k + 1, x + sep, k + 1, k + 1, GEOMS[b], gcommon, k + 1))
             if explicit_pair:
                 contact_sec += ('    <pair geom1="g%d" geom2="g%d" condim="%d" friction="0.8 0.7 0.01 0.002 0.001" margin="%g" '
